@@ -2,8 +2,10 @@ package main
 
 import (
 	"fmt"
+	"math"
 	"math/big"
 	"regexp"
+	"strconv"
 	"strings"
 
 	"github.com/wolimst/lib-secs2-hsms-go/pkg/ast"
@@ -21,7 +23,7 @@ func init() {
 
 // ---------------------------------------------------------------- C04
 
-var smlNames = []string{"", "name", "x.", "a<b", "n/1", "Zz.9", "a\"q", "é日本", "Msg[1]", "a>b", "q?", "S", "Sx1", "F1", "e", "Yield%", "a%%b", "%s", "50%d", "%!v", "a\\b", "{x}", "`q`", "$1"}
+var smlNames = []string{"", "name", "x.", "a<b", "n/1", "Zz.9", "a\"q", "é日本", "Msg[1]", "a>b", "q?", "S", "Sx1", "F1", "e", "Yield%", "a%%b", "%s", "50%d", "%!v", "a\\b", "{x}", "`q`", "$1", "\u017f1f1", "\u017f6F11", "\u017ftatus", "\u212a1", "h\u2192e"}
 
 // expressible: a random message that SML can express (ellipses numbered in order of appearance,
 // a name the header lexer reads back as one name, W only on odd functions)
@@ -56,6 +58,11 @@ func (g *Gen) expressible() *ast.DataMessage {
 			renum(t)
 		}
 		item = t.Build()
+		if g.pick(4) == 0 {
+			// strings the printer and the lexer have to get exactly right, also inside sized lists
+			nasty := []string{"a\\\x01b", "100%", "a%%b", "say \"hi\"", "\\", "//", "tab\there", "C:\\recipes\\", "%d%s%v", "\\\"", "x\\", "\x7f\\\x00"}
+			item = ast.NewListNode(ast.NewASCIINode(nasty[g.pick(len(nasty))]), item, ast.NewListNode(ast.NewASCIINode(nasty[g.pick(len(nasty))])))
+		}
 	}
 	return ast.NewDataMessage(gm.Name, gm.S, gm.F, gm.W, gm.Dir, item)
 }
@@ -135,7 +142,7 @@ func driverPP(c *Ctx) {
 // ---------------------------------------------------------------- C05
 
 var smlTypes = []string{"L", "A", "B", "BOOLEAN", "F4", "F8", "I1", "I2", "I4", "I8", "U1", "U2", "U4", "U8"}
-var otherLits = []string{`"abc"`, `""`, `"a b"`, `"C:\dir"`, `"a\b"`, `"x//y"`, `"<L>"`, `"~!@#$%^&*()_+{}|:<>?-=[];',./"`, `"é"`, "T", "F", "t", "f", "var1", "V_2[3]", "0x41", "0X7f", "0x80"}
+var otherLits = []string{`"C:\recipes\" "etch.rcp"`, `"a\" 0x01 "b"`, `"\" "\"`, `"x\\" "y"`, `"100%"`, `"a%%b"`, `"abc"`, `""`, `"a b"`, `"C:\dir"`, `"a\b"`, `"x//y"`, `"<L>"`, `"~!@#$%^&*()_+{}|:<>?-=[];',./"`, `"é"`, "T", "F", "t", "f", "var1", "V_2[3]", "0x41", "0X7f", "0x80"}
 
 func caseMix(g *Gen, s string) string {
 	switch g.pick(3) {
@@ -229,6 +236,23 @@ func driverLit(c *Ctx) {
 				idx++
 			}
 		}
+	}
+	// F4 / F8 literals next to the midpoint between two neighbouring floats of the narrower width (where rounding twice goes wrong)
+	for k := 0; k < 150; k++ {
+		if c.want(idx) {
+			g := c.gen(idx)
+			f := g.floatVal(4)
+			up := float64(math.Nextafter32(float32(f), float32(math.Inf(1))))
+			mid := (f + up) / 2
+			lits := []string{strconv.FormatFloat(mid, 'e', 20, 64), strconv.FormatFloat(math.Nextafter(mid, math.Inf(1)), 'e', 20, 64),
+				strconv.FormatFloat(math.Nextafter(mid, math.Inf(-1)), 'e', 20, 64), strconv.FormatFloat(f, 'g', -1, 32)}
+			text := fmt.Sprintf("S1F1 W H->E\n<F4 %s>\n.\nS1F1 W H->E\n<F8 %s>\n.", strings.Join(lits, " "), strings.Join(lits, " "))
+			ev := parseEvent(text)
+			ev["ev"], ev["how"] = "parse", "midpoint"
+			c.emit(idx, ev)
+			c.count("lit.midpoint")
+		}
+		idx++
 	}
 	// random plausible texts on top
 	for k := 0; k < c.N; k++ {
@@ -518,6 +542,7 @@ func (g *Gen) flipCase(lex string, inHeader bool, idx int) string {
 	return lex
 }
 
+var varNameRe = regexp.MustCompile(`\b((?:v|x_|Name|_q|t|fv|l|b|a1)[0-9]+)\b`)
 var sfRe = regexp.MustCompile(`^[Ss][0-9]+[Ff][0-9]+$`)
 var sizeLexRe = regexp.MustCompile(`^\[ ?([0-9]*) ?(\.\.)? ?([0-9]*) ?\]$`)
 
@@ -630,6 +655,10 @@ func driverConcat(c *Ctx) {
 				if k := strings.LastIndex(t, "."); k >= 0 {
 					t = t[:k+1] // end at the terminator (a trailing comment would swallow the next message)
 				}
+			}
+			if len(parts)%2 == 1 && g.pick(2) == 0 {
+				// the same base names with an array-like index in the next message
+				t = varNameRe.ReplaceAllString(t, "${1}[0]")
 			}
 			_, errs, _ := sml.Parse(t)
 			if len(errs) == 0 && strings.HasSuffix(t, ".") {
